@@ -283,7 +283,7 @@ def run(col):
     prof = dict(PROFILE)
     prof['max_dim'] = 3 if col.tier == 'quick' else 4
     core.run_property(col, lambda: benchmachine.make_machine(col, pp, prof, Observers(col)),
-                      budget(50, 800, col.tier), tag='bench', stateful_step_count=budget(30, 50, col.tier))
+                      budget(50, 800, col.tier), tag='bench', stateful_step_count=30 if col.tier == 'quick' else 50)
 
 
 def replay(col, case):
